@@ -36,6 +36,8 @@ class Adapter(EnvAdapter):
             dd = dict(id=id, ctor=dict(num_nodes=n, num_edges=e, max_degree=d, num_agents=a,
                                        num_nodes_per_agent=k, time_limit=t, default=kw.pop("default", False)),
                       episodes=episodes, max_steps=max_steps, policies=pols)
+            if "max_step" in kw:
+                dd["ctor"]["max_step"] = kw.pop("max_step")
             dd.update(kw)
             return dd
 
@@ -50,6 +52,11 @@ class Adapter(EnvAdapter):
                 c("n36a3k4_t7", 36, 72, 5, 3, 4, 7, 2, 11, probe_every=3, probe_cap=54),
                 c("n50a4k3_t70", 50, 100, 5, 4, 3, 70, 2, 76, probe_every=12, probe_cap=48),
                 c("n50a4k3_t3", 50, 100, 5, 4, 3, 3, 2, 7, probe_every=2, probe_cap=50),
+                # a generator whose route buffer (max_step) is shorter than the time limit: the episode must still
+                # run to the configured time limit (only the protocol / time-limit / spec groups are judged here:
+                # the walk bookkeeping clauses assume the buffer holds the whole walk)
+                c("n10a2k2_t9_buf5", 10, 15, 4, 2, 2, 9, 4, 13, probe_cap=20, probe_every=3, max_step=5,
+                  props=["C01", "C03", "C11"], policies=["random", "collide", "crowd"]),
             ]
         out = []
         for (n, e, d, a, k) in ((10, 15, 4, 2, 2), (36, 72, 5, 3, 4), (50, 100, 5, 4, 3), (12, 20, 4, 3, 2),
@@ -70,7 +77,7 @@ class Adapter(EnvAdapter):
             return MMST()   # the registered default: its own SplitRandomGenerator(36, 72, 5, 3, 4), time limit 70
         gen = SplitRandomGenerator(num_nodes=k["num_nodes"], num_edges=k["num_edges"], max_degree=k["max_degree"],
                                    num_agents=k["num_agents"], num_nodes_per_agent=k["num_nodes_per_agent"],
-                                   max_step=k["time_limit"])
+                                   max_step=k.get("max_step", k["time_limit"]))
         return MMST(generator=gen, time_limit=k["time_limit"])
 
     def cfg_record(self, cfg, env):
